@@ -90,7 +90,40 @@ func vfc36Times(rng *rand.Rand) ([]int64, string) {
 			t += 300000 + rng.Int63n(900001)
 		}
 	}
-	return ts, fmt.Sprintf("%s/n=%d", mode, n)
+	snap := vfc36Snap(rng, ts)
+	return ts, fmt.Sprintf("%s/n=%d/snap=%s", mode, n, snap)
+}
+
+// vfc36Snap moves some samples exactly onto downsampling window edges (5m edges; every 1h edge is one too):
+// the inclusive last millisecond of a window (t%res == res-1), the first one (t%res == 0) and +-1 ms around
+// them - real scrape timestamps are arbitrary milliseconds. Timestamps stay strictly increasing.
+func vfc36Snap(rng *rand.Rand, ts []int64) string {
+	const step = int64(300000)
+	mode := vfkit.Pick(rng, []string{"none", "none", "window-ends", "edges"})
+	if mode == "none" {
+		return mode
+	}
+	for i := range ts {
+		w := ts[i] / step
+		var c int64
+		switch mode {
+		case "window-ends":
+			// the last sample of (about every second) window sits exactly on the window's last millisecond
+			if (i+1 < len(ts) && ts[i+1]/step == w) || rng.Intn(2) == 0 {
+				continue
+			}
+			c = w*step + step - 1
+		default:
+			if rng.Intn(8) != 0 {
+				continue
+			}
+			c = vfkit.Pick(rng, []int64{w*step + step - 1, w*step + step - 2, w * step, w*step + 1, w*step + step})
+		}
+		if (i == 0 || c > ts[i-1]) && (i+1 == len(ts) || c < ts[i+1]) && c >= 0 {
+			ts[i] = c
+		}
+	}
+	return mode
 }
 
 func vfc36Values(rng *rand.Rand, ts []int64, res int64) ([]float64, string) {
@@ -420,12 +453,29 @@ func vfc36Case(r *vfkit.Run, c int, rng *rand.Rand) {
 	if c%8 == 0 {
 		sel = all
 	}
+	// candidate range bounds: exactly the chunk MinTime / MaxTime values and their neighbours (the querier's mint/maxt are inclusive)
+	var bounds []int64
+	for _, ch := range chks {
+		for _, d := range []int64{-1, 0, 1} {
+			bounds = append(bounds, ch.MinTime+d, ch.MaxTime+d)
+		}
+	}
 	for _, x := range sel {
-		got, warn, err := vfc04Select(q, out[0].T-1, out[len(out)-1].T+1, x.f, rng)
+		mint, maxt := out[0].T-1, out[len(out)-1].T+1
+		rangeKind := "full"
+		if rng.Intn(2) == 0 {
+			a, b := vfkit.Pick(rng, bounds), vfkit.Pick(rng, bounds)
+			if a > b {
+				a, b = b, a
+			}
+			mint, maxt, rangeKind = a, b, "chunk-boundaries"
+			r.Count("readbacks_with_range_bounds_on_chunk_boundaries", 1)
+		}
+		got, warn, err := vfc04Select(q, mint, maxt, x.f, rng)
 		r.Eval(1)
 		r.Count("readbacks_through_querier", 1)
 		w := func(extra map[string]any) map[string]any {
-			m := wit(map[string]any{"select_func": x.f, "dedup": dedupOn, "store_supports_without_replica_labels": st.supportsWRL})
+			m := wit(map[string]any{"select_func": x.f, "dedup": dedupOn, "store_supports_without_replica_labels": st.supportsWRL, "range": [2]int64{mint, maxt}, "range_kind": rangeKind})
 			for k, v := range extra {
 				m[k] = v
 			}
@@ -443,31 +493,49 @@ func vfc36Case(r *vfkit.Run, c int, rng *rand.Rand) {
 			r.Violation(c, "readback:unexpected-warning", "Select returned warnings: "+warn, w(nil))
 			return
 		}
+		allPts := make([]vfc04Pt, len(out))
+		for i, o := range out {
+			allPts[i] = vfc04Pt{o.T, x.get(o)}
+		}
+		wantPts := vfc04InRange(allPts, mint, maxt)
+		if len(got) == 0 && len(wantPts) == 0 {
+			continue // nothing of the series lies in the queried range: it may be absent
+		}
 		if len(got) != 1 {
-			r.Violation(c, "readback:series-count", fmt.Sprintf("Select(%s) returned %d series for the one downsampled series", x.f, len(got)), w(nil))
+			r.Violation(c, "readback:series-count", fmt.Sprintf("Select(%s) over [%d,%d] returned %d series for the one downsampled series (%d aggregate samples in range)", x.f, mint, maxt, len(got), len(wantPts)), w(nil))
 			return
 		}
 		if got[0].Err != "" {
 			r.Violation(c, "readback:iterator-error", fmt.Sprintf("Select(%s): iterator failed: %s", x.f, got[0].Err), w(nil))
 			return
 		}
-		wantPts := make([]vfc04Pt, len(out))
-		for i, o := range out {
-			wantPts[i] = vfc04Pt{o.T, x.get(o)}
-		}
-		if !vfc04SamePts(got[0].Next, wantPts) {
-			k, d := vfc04Diff(got[0].Next, wantPts)
+		// inside the queried range exactly the aggregate samples; outside it only genuine samples of this series are tolerated
+		gotIn := vfc04InRange(got[0].Next, mint, maxt)
+		if !vfc04SamePts(gotIn, wantPts) {
+			k, d := vfc04Diff(gotIn, wantPts)
 			if k == "" {
 				k = "differs"
 			}
-			r.Violation(c, "readback:"+x.f+":"+k, fmt.Sprintf("Select(%s) read with Next: %s (%s)", x.f, d, class), w(map[string]any{"got": vfc04PtsBrief(got[0].Next), "want": vfc04PtsBrief(wantPts)}))
+			r.Violation(c, "readback:"+x.f+":"+k+":range="+rangeKind, fmt.Sprintf("Select(%s) over [%d,%d] read with Next: %s (%s)", x.f, mint, maxt, d, class), w(map[string]any{"got": vfc04PtsBrief(gotIn), "want": vfc04PtsBrief(wantPts)}))
 			return
 		}
-		if k, d := vfc04Diff(got[0].Mixed, wantPts); k != "" && k != "samples-missing" {
+		if !vfc04IsSubsequence(got[0].Next, allPts) {
+			k, d := vfc04Diff(got[0].Next, allPts)
+			r.Violation(c, "readback:"+x.f+":outside-range:"+k, fmt.Sprintf("Select(%s) over [%d,%d] read with Next: %s (%s)", x.f, mint, maxt, d, class), w(nil))
+			return
+		}
+		if !vfc04IsSubsequence(got[0].Mixed, allPts) {
+			k, d := vfc04Diff(got[0].Mixed, allPts)
 			r.Violation(c, "readback:"+x.f+":seek+next:"+k, fmt.Sprintf("Select(%s) read with Seek/Next: %s (%s)", x.f, d, class), w(nil))
 			return
 		}
-		if bad, d := vfc04CheckSeeks(got[0].seeks, got[0].Next); bad {
+		var ref []vfc04Pt
+		for _, p := range got[0].Next {
+			if p.T <= maxt {
+				ref = append(ref, p)
+			}
+		}
+		if bad, d := vfc04CheckSeeks(got[0].seeks, ref); bad {
 			r.Violation(c, "readback:seek-inconsistent-with-next-only", fmt.Sprintf("Select(%s): %s (%s)", x.f, d, class), w(nil))
 			return
 		}
